@@ -3054,6 +3054,12 @@ class LazyStackedTensorDict(TensorDictBase):
         converted_idx = split_index["index_dict"]
         num_single = split_index["num_single"]
         isinteger = split_index["isinteger"]
+        if split_index["has_bool"] or split_index["is_nd_tensor"]:
+            # the index does not decompose into one unbound value per member:
+            # write key by key (set_at_ handles masks and integer tensors)
+            return super().update_at_(
+                input_dict_or_td, index, clone=clone, non_blocking=non_blocking
+            )
         if isinteger:
             # this will break if the index along the stack dim is [0] or :1 or smth
             for i, _idx in converted_idx.items():
@@ -3063,7 +3069,12 @@ class LazyStackedTensorDict(TensorDictBase):
                     non_blocking=non_blocking,
                 )
             return self
-        unbind_dim = self.stack_dim - num_single
+        unbind_dim = (
+            self.stack_dim
+            - num_single
+            + split_index["num_none"]
+            - split_index["num_squash"]
+        )
         for (i, _idx), _value in _zip_strict(
             converted_idx.items(),
             input_dict_or_td.unbind(unbind_dim),
